@@ -169,10 +169,8 @@ func (o *offsetDB) parseStreams(content string, streams streamsOffsets) (string,
 		if pos < 0 {
 			return "", fmt.Errorf("wrong offsets format, no separator %q", line)
 		}
+		// the stream name may be empty: save() writes the line "    : <offset>" for events whose stream field is ""
 		stream := pipeline.StreamName(line[4:pos])
-		if len(stream) == 0 {
-			return "", fmt.Errorf("wrong offsets format, empty stream, %s", content)
-		}
 
 		_, has := streams[stream]
 		if has {
